@@ -233,6 +233,7 @@ def run_jit_programs(res, cases, levels, max_report=4, limited=False):
     for level in levels:
         outs = C.run_lines(hv, ["mcprog|%d|%d|%d|1|%s" % (c.w, level, 1 if limited else 0, P.hexs(c.src)) for c in cases])
         jobs = []
+        frames = []
         for c, o in zip(cases, outs):
             if not o.startswith("ok "):
                 continue
@@ -243,8 +244,35 @@ def run_jit_programs(res, cases, levels, max_report=4, limited=False):
             code = bytes.fromhex(hx)
             if len(locs) != len(ins) + 1:
                 raise C.CheckFailure("mcprog: %d locations for %d instructions" % (len(locs), len(ins)))
+            frames.append((c, level, hdr, code[:locs[0]].hex(), code[locs[-1]:].hex(), int(term) - locs[-1], len(code) - locs[-1]))
             for i, (live, tk) in enumerate(ins):
                 jobs.append((c, i, tk, live, code[locs[i]:locs[i + 1]].hex(), locs, int(term), level, hdr))
+        # prologue / epilogue: the frame holds every stack temporary and keeps the stack 16-byte aligned
+        fd = x86tr.disasm_many([f[3] for f in frames] + [f[4] for f in frames])
+        flines, fmeta = [], []
+        for k, f in enumerate(frames):
+            try:
+                pushes, sub, jtarget = x86tr.frame_of(fd[k], fd[len(frames) + k], f[5])
+                # the `return 1` path must join the common tail right after `mov eax, 0` (5 or 6 bytes after the termination label)
+                if not (f[5] < jtarget < f[6]):
+                    raise x86tr.Unsupported("epilogue jump target %#x outside the tail" % jtarget)
+                flines.append("x86frame|%s|%d|%d" % (f[2][0], pushes, sub))
+                fmeta.append(f)
+            except x86tr.Unsupported as e:
+                stats["unsupported"] += 1
+                if rep < max_report:
+                    rep += 1
+                    res.violation("JIT prologue/epilogue of %r (width %d, level %d) is not the expected frame code: %s" % (f[0].src[:150], f[0].w, f[1], str(e)[:300]),
+                                  {"case": f[0].to_json(), "backend": "jit", "level": f[1]}, no_failing_input=True)
+        for f, v in zip(fmeta, C.run_lines(driver, flines)):
+            if v == "ok":
+                stats["accepted"]["frame"] = stats["accepted"].get("frame", 0) + 1
+            else:
+                stats["rejected"] += 1
+                if rep < max_report:
+                    rep += 1
+                    res.violation("JIT frame of %r (width %d, level %d, %s temporaries) does not hold the stack temporaries or misaligns the stack" % (f[0].src[:150], f[0].w, f[1], f[2][0]),
+                                  {"case": f[0].to_json(), "backend": "jit", "level": f[1]}, no_failing_input=True)
         dis = x86tr.disasm_many([j[4] for j in jobs])
         lines, meta = [], []
         for j, di in zip(jobs, dis):
